@@ -911,10 +911,13 @@ theorem text_printed_selected (missing : Bool) (showRules : List Str) (inst : Li
 set_option maxRecDepth 100000 in
 example : (textPrinted true [] (run exEnv [0] exRules).inst).map (·.map (·.1)) = some [2, 3, 4, 10] := by decide
 
-/-! ### evaluation on a thread pool (known finding parallel-observer-race) -/
+/-! ### evaluation on a thread pool (regression lemmas for the fix c9df167, formerly finding parallel-observer-race)
 
-/-- FULL statement (false of the current code): whatever observer calls fail on the pool, every rule's outcome is
-accounted -/
+the pre-fix behaviour: a failing observer call loses the outcome; the code now cannot fail there (the observer walks a
+snapshot of the broker), so the hypothesis of `pooled_observer_accounts_partial` holds of every pooled run -/
+
+/-- the statement that was false of the code BEFORE c9df167: whatever observer calls fail on the pool, every rule's
+outcome is accounted -/
 def PooledObserverAccounts : Prop :=
   ∀ (env : Env) (seed : List Comp) (xs : List (Rule × Bool)), Fresh seed (xs.map (·.1)) →
     ∀ r f, (r, f) ∈ finals env seed (xs.map (·.1)) → tally (runPooled env seed xs) r.id = f.tally
@@ -933,7 +936,8 @@ example : ∀ x ∈ exRules.map (fun r => (r, true)), x.2 = true := by decide
 def pooledWitnessRule : Rule := exRule 2 [0] true (.ret c_make_fail (.str "K".toList) [("a".toList, .int 1)])
 
 set_option maxRecDepth 100000 in
-/-- the witness: one rule returning a fail response whose observer call fails on the pool; the response is in the
+/-- the pre-fix witness (reverting c9df167 makes it real again): one rule returning a fail response whose observer
+call fails on the pool; the response is in the
 broker and nowhere in the evaluator's accounting, while its one outcome is an entry under "rule" -/
 theorem pooled_observer_accounts_witness : ¬ PooledObserverAccounts := by
   intro h
